@@ -19,6 +19,10 @@ type c10Mon struct {
 	pendGC   int
 	pendGID  string
 	pendRnd  string
+	callGID  string
+	lastGID  string
+	lastRnd  string
+	callRnd  string
 	probes   int
 	snapSeen bool
 	retSeen  bool
@@ -237,6 +241,9 @@ func c10Run(c *h.Ctx) {
 				t := p.SS.S.TE.GetTable()
 				m.pending = &h.ActRec{PID: pid, Act: e.Name[4:]}
 				m.pendSeat, m.pendGC = seatOf(t, pid), t.State.GameCount
+				// the hand state the action is submitted to is the one of the last snapshot before the call (trace order;
+				// the monitor itself runs later, the live table may have moved on)
+				m.callGID, m.callRnd = m.lastGID, m.lastRnd
 				m.snapSeen, m.retSeen, m.snapLA, m.pendGID = false, false, nil, ""
 			}
 		case h.EvRet:
@@ -262,8 +269,16 @@ func c10Run(c *h.Ctx) {
 					c.Violate("C10/action-event-does-not-name-the-action", fmt.Sprintf("accepted %s by %s (seat %d, hand %d) was published as %s by %s seat %d hand %d game id %q", m.pending.Act, m.pending.PID, m.pendSeat, m.pendGC, a.Action, a.PlayerID, a.Seat, a.GameCount, a.GameID), p.witness())
 				}
 				m.pendGID, m.pendRnd = a.GameID, a.Round
+				if m.callGID != "" && !c.Failed() && (a.GameID != m.callGID || a.Round != m.callRnd) {
+					c.Violate("C10/action-event-names-another-round-or-hand", fmt.Sprintf("%s by %s was submitted in round %s of hand %s and published as round %s of hand %s", a.Action, a.PlayerID, m.callRnd, m.callGID, a.Round, a.GameID), p.witness())
+				}
 			}
 		case h.EvTable:
+			if e.T != nil && e.T.State.GameState != nil {
+				m.lastGID, m.lastRnd = e.T.State.GameState.GameID, e.T.State.GameState.Status.Round
+			} else if e.T != nil {
+				m.lastGID, m.lastRnd = "", ""
+			}
 			if m.pending != nil && !m.snapSeen && e.T != nil && e.T.State.GameState != nil {
 				m.snapSeen = true
 				if la := e.T.State.LastPlayerGameAction; la != nil {
